@@ -72,10 +72,11 @@ static void print_stats(const RunStats &s, long runs, long plain_ok) {
          t.cache_checked, t.hash_expands, t.sink_errors, t.steps);
 }
 
+static int g_focus = 0;
 static Plan make_plan(const std::string &mode, uint64_t seed) {
-  if (mode == "oom") return gen_hist_plan(seed, true);
+  if (mode == "oom") return gen_hist_plan(seed, true, g_focus);
   if (mode == "perturb") return gen_perturb_plan(seed);
-  return gen_hist_plan(seed, false);
+  return gen_hist_plan(seed, false, g_focus);
 }
 
 // ---------------------------------------------------------------- worker
@@ -220,8 +221,16 @@ static ClassResult classify_text(const std::string &plan_text, const std::string
   int be = 0, fault = 0;
   bool any_fault = false, got_error = false;
   std::string first_detail;
+  bool pl_longer = false;
   while (std::getline(is, line)) {
+    if (line.compare(0, 7, "SYNERR ") == 0) continue;
+    if (line.compare(0, 6, "PLLEN ") == 0 && !got_error) {
+      int a, b;
+      if (sscanf(line.c_str(), "PLLEN %d %d", &a, &b) == 2) pl_longer = a > b;
+      continue;
+    }
     if (line.compare(0, 8, "OPBEGIN ") == 0 && !got_error) {
+      pl_longer = false;
       char k[32];
       int idx;
       if (sscanf(line.c_str(), "OPBEGIN %d %31s be=%d fault=%d", &idx, k, &be, &fault) == 4) {
@@ -277,6 +286,7 @@ static ClassResult classify_text(const std::string &plan_text, const std::string
     kind = b;
   }
   if (site.empty()) site = opkind;
+  if (opkind == "PARSE" && pl_longer) site += "(parser-list-longer-than-tokens)";
   std::string prop = "C14";
   if (any_fault) prop = "C17";
   else if (opkind == "FREE_TREE" || opkind == "WALK") prop = "C13";
@@ -384,9 +394,11 @@ int main(int argc, char **argv) {
   std::string mode = "hist", plandir;
   uint64_t from = 0, to = 0;
   bool shapes = false;
+  for (int i = 1; i + 1 < argc; i++) if (std::string(argv[i]) == "--focus") g_focus = atoi(argv[i + 1]);
   for (int i = 1; i < argc; i++) {
     std::string a = argv[i];
     if (a == "--mode" && i + 1 < argc) mode = argv[++i];
+    else if (a == "--focus" && i + 1 < argc) ++i;
     else if (a == "--seeds" && i + 1 < argc) {
       std::string s = argv[++i];
       size_t c = s.find(':');
@@ -406,6 +418,7 @@ int main(int argc, char **argv) {
       return replay(path, keep, ann);
     } else if (a == "--classify" && i + 1 < argc) return classify(argv[++i]);
     else if (a == "--minimize" && i + 3 < argc) return minimize(argv[i + 1], argv[i + 2], argv[i + 3]);
+    else if (a == "--oracle-server") { oracle_serve_stdio(); return 0; }
     else if (a == "--perturb") return perturb_main(argc, argv);
     else if (a == "--oomenum") return oomenum_main(argc, argv);
   }
